@@ -38,6 +38,9 @@ func pinOverlay(dir string) string {
 	} else {
 		pinCachedVotes(dir, replace)
 	}
+	if strings.Contains(dir, "smallgas") {
+		smallBlockGas(dir, replace)
+	}
 	ov, _ := json.Marshal(map[string]any{"Replace": replace})
 	out := filepath.Join(dir, "overlay.json")
 	if err := os.WriteFile(out, ov, 0o644); err != nil {
@@ -95,6 +98,32 @@ func (c *Casper) verifPinnedCachedMsgs(blockHash bc.Hash) {
 }
 `
 	dst := filepath.Join(dir, "apply_block.go")
+	if os.WriteFile(dst, []byte(s), 0o644) == nil {
+		replace[src] = dst
+	}
+}
+
+// smallBlockGas re-tunes one knob for the builds that ask for it (C38): the block gas limit is a Go
+// constant (10,000,000), far above anything a simulated mempool of a few dozen transactions reaches, so
+// the proposer's "does not fit any more" path would never run. The overlay sets it to a few
+// transactions' worth (VERIF_SMALLGAS, default 4000); proposer and validator read the same constant.
+func smallBlockGas(dir string, replace map[string]string) {
+	src := filepath.Join(repoPath, "consensus", "general.go")
+	b, err := os.ReadFile(src)
+	if err != nil {
+		return
+	}
+	s := string(b)
+	const decl = "MaxBlockGas    = uint64(10000000)"
+	if strings.Count(s, decl) != 1 {
+		return
+	}
+	n := os.Getenv("VERIF_SMALLGAS")
+	if n == "" {
+		n = "4000"
+	}
+	s = strings.Replace(s, decl, "MaxBlockGas    = uint64("+n+")", 1)
+	dst := filepath.Join(dir, "general.go")
 	if os.WriteFile(dst, []byte(s), 0o644) == nil {
 		replace[src] = dst
 	}
